@@ -4,6 +4,11 @@
 // ordinary build this is a pure pass-through to `std::thread`. Under the Kani verifier
 // (`cfg(kani)`, which has no threads) `spawn` runs the closure inline, i.e. the "background
 // thread" runs to its next blocking point at once, and counts how often it was called.
+//
+// `sinks/core.rs` takes `AtomicU64` from here when the guard is on: a pass-through to
+// `std::sync::atomic` in an ordinary build; under Kani a wrapper that lets "other threads" add an
+// arbitrary amount to the counter before every access and keeps a ghost total of what they added,
+// so that a harness can state "no increment is ever lost, whatever the others do".
 
 pub(crate) mod thread {
     #[cfg(not(kani))]
@@ -35,5 +40,67 @@ pub(crate) mod thread {
         }
 
         pub fn yield_now() {}
+    }
+}
+
+pub(crate) mod atomic {
+    #[cfg(not(kani))]
+    #[allow(unused_imports)]
+    pub use std::sync::atomic::{AtomicU64, Ordering};
+
+    #[cfg(kani)]
+    #[allow(unused_imports)]
+    pub use self::interfered::AtomicU64;
+    #[cfg(kani)]
+    #[allow(unused_imports)]
+    pub use std::sync::atomic::Ordering;
+
+    #[cfg(kani)]
+    pub(crate) mod interfered {
+        use std::sync::atomic::{AtomicBool, AtomicU64 as Real, Ordering};
+
+        /// when set, every access is preceded by an arbitrary addition made by "other threads"
+        pub static INTERFERE: AtomicBool = AtomicBool::new(false);
+
+        #[derive(Debug, Default)]
+        pub struct AtomicU64 {
+            v: Real,
+            /// ghost: total added by the other threads so far (wrapping, like the counter)
+            others: Real,
+        }
+
+        impl AtomicU64 {
+            fn interfere(&self) {
+                if INTERFERE.load(Ordering::SeqCst) {
+                    let x: u64 = kani::any();
+                    self.v.fetch_add(x, Ordering::SeqCst);
+                    self.others.fetch_add(x, Ordering::SeqCst);
+                }
+            }
+
+            pub fn ghost_others(&self) -> u64 {
+                self.others.load(Ordering::SeqCst)
+            }
+
+            pub fn load(&self, o: Ordering) -> u64 {
+                self.interfere();
+                self.v.load(o)
+            }
+
+            pub fn store(&self, x: u64, o: Ordering) {
+                self.interfere();
+                self.v.store(x, o)
+            }
+
+            pub fn fetch_add(&self, x: u64, o: Ordering) -> u64 {
+                self.interfere();
+                self.v.fetch_add(x, o)
+            }
+
+            pub fn swap(&self, x: u64, o: Ordering) -> u64 {
+                self.interfere();
+                self.v.swap(x, o)
+            }
+        }
     }
 }
